@@ -16,6 +16,13 @@ property C20 ("a protein contained in no group is reported as missing and is nev
 existing group"): the −1 marker of `get_protein_group_idxs` is dropped instead of being used as a
 Python list position (fixes/C20-unknown-protein-last-group.diff).  Everything else follows the code.
 
+Besides the methods of the class the machine has steps for the package's other mutating callers, for its
+readers (`Op.read`) and for its LOOKUP CALLERS (`Op.rows`, `Caller`, `callerAnswer`): the pipeline tools and
+quantification readers that look the proteins of the rows of a file up in the collection they are handed
+(`update_fragpipe_psm_file`, `add_precursor_quants` / `update_precursor_quants_single` of quant/*.py,
+`collect_peptide_scores_per_protein`, `FragpipeProteinAnnotationsColumns.append_columns`).  `stepAt` is
+the step of a process with several live collections.
+
 Executable, total, Mathlib-free; polymorphic in the identifier type (the driver uses `String`).
 -/
 namespace PgFdr.C20
